@@ -79,6 +79,15 @@ CHECKS = {
                      "and index name are compared directly.",
                 technique="TLA+ contract over logged results (code->spec trace validation by TLC); Dask's shuffle is a black box",
                 ref="§6 C09"),
+    "C10": dict(engine="PackFS/Trace_PackFS (+ Pack, fsrec recording filesystem)",
+                text="PackFS models the filesystem protocol of pack_partitions_to_parquet one action per filesystem call (tasks as processes, "
+                     "retry wrappers as loops, local move-into-directory semantics); TLC explores every interleaving and every assignment of "
+                     "rows to output partitions for the three temp-directory modes with / without a previous dataset: CleanFinal, NoSharedWrites. "
+                     "Real runs on a recording filesystem are validated call by call by Trace_PackFS (each protocol call must be exactly the "
+                     "call the model expects next from that task, every answer the model filesystem's answer, the final tree the model's), "
+                     "and the read-back rows / order are judged by Pack!PackOK.",
+                technique="TLC model checking of the protocol state machine; code->spec trace validation of recorded filesystem calls (per-task call-exact binding)",
+                ref="§6 C10"),
     "C11": dict(engine="ParquetDS/MC_ParquetDS/Trace_ParquetDS",
                 text="The observable frame is an abstract record; the round-trip identity, the columns= projection rule and the list / glob "
                      "concatenation rule are TLA+ operators; the driver covers kind x subtype x backing x index kind x compression x partitions "
@@ -129,6 +138,25 @@ CHECKS = {
                      "Dask) and TLC validates each logged pair against the relation.",
                 technique="metamorphic relation specified in TLA+, model-checked on P/D operators; code->spec trace validation of opaque-token pairs",
                 ref="§6 C17"),
+    "C18": dict(engine="Caches/Trace_Caches + PackFS/Trace_PackFS + differential matrix",
+                text="TLC explores all interleavings of 3 client threads on the check-build-assign cache pattern (each use sees a complete value; "
+                     "a two-field memo is the failing negative control) and of the pack tasks (unique final dataset, no path written by two "
+                     "tasks of a phase). Client threads sharing one object are run with 1 us switch interval and seeded yields at env-guarded "
+                     "trace points; the cache events are validated by TLC and every answer compared with the single-threaded one; threaded "
+                     "pack executions with injected delays are validated against PackFS; 17 operations are compared across "
+                     "NUMBA_NUM_THREADS x scheduler x workers x repetitions.",
+                technique="TLC model checking of interleavings; code->spec trace validation of real threaded runs; differential exploration for numba thread counts",
+                note="Races inside numba prange / parallel kernels are explored differentially only. ",
+                ref="§6 C18"),
+    "C19": dict(engine="PackFS || Fault / Trace_PackFS + fault-injecting filesystem", category="fault_enumeration",
+                text="TLC explores PackFS composed with a fault process (a fault before any filesystem call; retry wrappers restart up to the "
+                     "attempt limit; singles everywhere, pairs and repetition to the limit in the smaller configurations): a call that returns "
+                     "leaves exactly the fault-free dataset, and a repeat with overwrite=True after an aborted call restores it. On the real "
+                     "code EVERY call position of the fault-free run is faulted (OSError / FileNotFoundError, stale listing on ls, sampled pairs "
+                     "and repetitions); each run is classified against the fault-free snapshot and every faulted execution (with its repeat) is "
+                     "validated against the model.",
+                technique="exhaustive single-fault enumeration on the code + TLC model checking of protocol || fault; trace validation of every faulted run",
+                ref="§6 C19"),
     "C20": dict(engine="ActiveGeom/MC_ActiveGeom",
                 text="State machine of a frame's columns / active geometry (P) and of GeoDataFrame._geometry as pandas' propagation classes and "
                      "Dask's meta / partitions leave it (D); TLC checks that the mechanism honours the active geometry after every operation "
@@ -189,7 +217,7 @@ def build():
     return m
 
 
-HOOK_COMMITS = []
+HOOK_COMMITS = ['9a22d55']
 
 if __name__ == "__main__":
     m = build()
